@@ -48,11 +48,16 @@ def ProtocolDecodeStatement : Prop :=
     (encode env p.2 v).length = size env p.2 v ∧
     decode env p.2 (encode env p.2 v) = .ok (v, [])
 
-/-- `ProtocolDecodeStatement`, given the laws of the two hand-written codecs (`Policies`, `Input`) -/
-theorem protocol_decode_partial (L : EnvLaws env) : ProtocolDecodeStatement := by
+/-- **C02 for every named protocol type** (transaction structs, inputs, outputs, receipts, …), for all byte strings -/
+theorem protocol_decode : ProtocolDecodeStatement := by
   intro p hp bs v rest h
   obtain ⟨hd, hn⟩ := C01.registry_wf hp
-  exact ⟨decode_consumes_size env L p.2 hd h, (decoded_is_value env L p.2 hd h).2.2.1, dec_fixpoint env L p.2 hd hn h⟩
+  exact ⟨decode_consumes_size env envLaws p.2 hd h, (decoded_is_value env envLaws p.2 hd h).2.2.1, dec_fixpoint env envLaws p.2 hd hn h⟩
+
+/-- **C02 for `Transaction::from_bytes`**, for all byte strings -/
+theorem transaction_decode (bs rest : Bytes) (v : Val) (h : txDecode bs = .ok (v, rest)) :
+    (∃ used, bs = used ++ rest ∧ used.length = txSize v) ∧ txWt v = true ∧ (txEncode v).length = txSize v ∧
+    txDecode (txEncode v) = .ok (v, []) := tx_decode_sound bs rest v h
 
 /-! ### non-vacuity / boundary behaviour, evaluated by the kernel -/
 
